@@ -245,6 +245,39 @@ fn cuts_for(reply: &[u8], thorough: bool) -> Vec<Vec<usize>> {
     out
 }
 
+/// COPY FROM STDIN with every sequence of client chunk sizes (below / at / above the 8196-byte
+/// forwarding threshold) up to a length: order and completeness of what the server receives.
+pub fn copyin_seq_cases(thorough: bool) -> Vec<RawCase> {
+    let q = |sql: &str| wire::query(sql);
+    let sizes = [10usize, 4000, 8187, 8191, 8192, 9000];
+    let maxlen = if thorough { 4 } else { 3 };
+    let mut seqs: Vec<Vec<usize>> = vec![vec![]];
+    let mut out = Vec::new();
+    for _ in 0..maxlen {
+        let mut next = Vec::new();
+        for s in &seqs {
+            for z in sizes {
+                let mut t = s.clone();
+                t.push(z);
+                next.push(t);
+            }
+        }
+        for chunks in &next {
+            let mut reqs = vec![(q("COPY t FROM STDIN /*c0.t0.s0*/"), b'G')];
+            for (i, c) in chunks.iter().enumerate() {
+                reqs.push((copy_chunk(*c, i), 0));
+            }
+            reqs.push((wire::copy_done(), b'Z'));
+            reqs.push((q("SELECT after /*c0.t1.s0*/"), b'Z'));
+            let mut done = wire::command_complete(&format!("COPY {}", chunks.len()));
+            done.extend(wire::ready(b'I'));
+            out.push(RawCase { name: format!("copyin-seq{:?}", chunks).replace(' ', ""), requests: reqs, replies: vec![wire::copy_in_response(), done, rows_reply(&[13], b'I')] });
+        }
+        seqs = next;
+    }
+    out
+}
+
 pub fn raw_scenario(case: &RawCase, which_reply: usize, cuts: &[usize], req_cut: Option<(usize, usize)>) -> Scenario {
     let cfg = Cfg::one(PoolCfg::simple("db", "transaction", 1, 1, 0));
     let mut servers = cfg.servers();
@@ -667,6 +700,9 @@ pub fn build(tier: &str) -> SimCheck {
             }
         }
     }
+    for case in copyin_seq_cases(thorough) {
+        scenarios.push(raw_scenario(&case, 0, &[], None));
+    }
     for prog in REF_PROGRAMS {
         for cache in [0usize, 8] {
             // without statement caching, named statements do not survive the end of a transaction
@@ -685,7 +721,7 @@ pub fn build(tier: &str) -> SimCheck {
         oracle: Box::new(oracle),
         bound: 0,
         limits: Limits { max_wall_s: if thorough { 1500.0 } else { 50.0 }, ..Default::default() },
-        rule: "raw: reply stream catalogue (row sizes around the 8196-byte thresholds, empty/multi-statement, Notice/ParameterStatus, mid-stream error, COPY out/in/fail with chunk sizes around 8196, SELECT+COPY in one Query, portal suspension, in-transaction status) x every single cut of the server stream at message boundaries +-0..5 bytes and at the thresholds x client-request cuts; ref: 13 request shapes (simple, extended, named, pipelined, bare Sync then batch, Sync Sync, Describe, Close+re-Parse, Flush, big, COPY, error in batch) x caching on/off x gating, compared with the direct-connection reference; distinct = distinct histories".into(),
+        rule: "raw: reply stream catalogue (row sizes around the 8196-byte thresholds, empty/multi-statement, Notice/ParameterStatus, mid-stream error, COPY out/in/fail with chunk sizes around 8196, COPY in with every sequence of <= 3 (thorough 4) client chunks over 6 sizes below/at/above the threshold, SELECT+COPY in one Query, portal suspension, in-transaction status) x every single cut of the server stream at message boundaries +-0..5 bytes and at the thresholds x client-request cuts; ref: 13 request shapes (simple, extended, named, pipelined, bare Sync then batch, Sync Sync, Describe, Close+re-Parse, Flush, big, COPY, error in batch) x caching on/off x gating, compared with the direct-connection reference; distinct = distinct histories".into(),
         assumptions: vec![
             "TLS framing not exercised (generic Client<S,T> relay code is the same)".into(),
             "reference backend run without a pooler defines the direct-connection reply".into(),
